@@ -91,13 +91,15 @@ def build_harness_debug():
     return path
 
 
-def jsv(args, timeout=3600, stdin=None, seed_offset=0):
-    """Run a harness subcommand; returns the parsed SUMMARY record."""
+def jsv(args, timeout=3600, stdin=None, seed_offset=0, debug=False):
+    """Run a harness subcommand; returns the parsed SUMMARY record.  debug: the unoptimised build (overflow checks and
+    debug assertions on, nothing inlined)."""
     build_harness()
+    exe = build_harness_debug() if debug else JSV
     env = dict(os.environ, VERIF_SEED=str(seed() + seed_offset))
     t0 = time.time()
     try:
-        p = subprocess.run([JSV] + [str(a) for a in args], stdout=subprocess.PIPE, stderr=subprocess.PIPE,
+        p = subprocess.run([exe] + [str(a) for a in args], stdout=subprocess.PIPE, stderr=subprocess.PIPE,
                            text=True, timeout=timeout, env=env, input=stdin)
     except subprocess.TimeoutExpired:
         raise ToolError(f'harness timed out: jsv {" ".join(map(str, args))}')
